@@ -184,6 +184,9 @@ pub fn judge(case: &Case, l: &mut Local) {
             let cause = if label.contains("contains") { format!("@{}", label.split(':').next().unwrap_or("")) } else { String::new() };
             for id in ["3", "5"] {
                 let (mx, my) = (get(&bx, id), get(&by, id));
+                if mx.is_some() != my.is_some() {
+                    v(l, id, if mx.is_some() { "block-dropped" } else { "block-invented" }, &cause, format!("block {id} is {} in the input and {} in the serialised message", if mx.is_some() { "present" } else { "absent" }, if my.is_some() { "present" } else { "absent" }), case);
+                }
                 let tx = mx.as_deref().and_then(tag_map).unwrap_or_default();
                 let ty = my.as_deref().and_then(tag_map).unwrap_or_default();
                 for (t, val) in &tx {
@@ -393,6 +396,14 @@ fn build_cases(cfg: &Config) -> Vec<Case> {
                 let b3 = format!("{{{a}:{}}}{{{b}:{}}}", b3_value(a, k), b3_value(b, k + 1));
                 cases.push(Case::WellFormed { label: format!("block3-order:{a},{b}"), text: assemble(&block1(k, false), &block2_input(mt, k, 17), Some(&b3), b4, None) });
             }
+        }
+    }
+    // (2c) blocks 3 and 5 present but empty, alone and together, under both header directions
+    for (k, (b3, b5)) in [(Some(""), None), (None, Some("")), (Some(""), Some("")), (Some(""), Some("{CHK:123456789ABC}")), (Some("{108:REF}"), Some(""))].into_iter().enumerate() {
+        for output in [false, true] {
+            let (mt, b4) = &bodies[k % nb];
+            let b2 = if output { block2_output(mt, k, 47) } else { block2_input(mt, k, 17) };
+            cases.push(Case::WellFormed { label: format!("present-but-empty:b3={:?}:b5={:?}", b3, b5), text: assemble(&block1(k, false), &b2, b3, b4, b5) });
         }
     }
     // (3) header shapes x every type
